@@ -30,6 +30,7 @@ pub fn exec(op: &str, args: &[&str]) -> String {
         "rnew" => range::op_rnew(args),
         "rprove" => range::op_rprove(args),
         "rmprove" => "emit:".to_string(),
+        "rseq" => range::op_rseq(args),
         "decode" => enc::op_decode(args),
         "serde" => enc::op_serde(args),
         "extract" => enc::op_extract(args),
